@@ -46,7 +46,7 @@ REPLACERS = ('core::mem::replace', 'core::mem::swap', 'core::mem::take', 'core::
 
 # ---- what can be done through `&mut BytesMut` (last path segment of the resolved callee; BytesMut's own methods, Buf / BufMut, Deref<[u8]>)
 READS = {'is_empty', 'len', 'capacity', 'remaining', 'has_remaining', 'chunk', 'as_ref', 'deref', 'borrow', 'iter', 'first', 'last', 'get',
-         'starts_with', 'ends_with', 'contains', 'to_vec', 'clone', 'eq', 'ne', 'fmt', 'as_ptr', 'hash', 'cmp', 'partial_cmp', 'index', 'to_owned', 'into_iter', 'chunks', 'windows'}
+         'starts_with', 'ends_with', 'contains', 'to_vec', 'clone', 'eq', 'ne', 'fmt', 'as_ptr', 'hash', 'cmp', 'partial_cmp', 'index', 'to_owned', 'chunks', 'windows'}
 CAPACITY_ONLY = {'reserve', 'try_reclaim'}             # octets and length unchanged
 # keeps an empty buffer empty and has nothing to lose there: BytesMut::clear = set_len(0); truncate(n) is a no-op for n >= len;
 # split() = split_to(len) moves all 0 octets out; Buf::advance(0) / split_to(0) move the start by nothing
@@ -320,6 +320,12 @@ def judge_handle(ctx, rule, site, region, B):
         ctx.fail(rule + '.handle-site-on-an-enumerated-path', where, loc(node),
                  'Framed::read_buffer_mut is called at a place the enumerated paths of %s do not reach (%s): what is done with the read buffer there is not decided' % (where, region.error or 'not inside a select! arm / behind a construct without a model'))
         return
+    # every place of the body that names the reference (the call itself, a local bound to it) lies on the enumerated paths - a use
+    # inside a closure that is never applied, or behind a construct without a model, would otherwise go unread
+    for n, _c in walk(B.root):
+        if n['k'] == 'Path' and n.get('res') == 'local' and hirq.resolve_expr(B, n) is node and not region.evaluated(n) and not region.dead(n):
+            ctx.fail(rule + '.handle-site-on-an-enumerated-path', '%s|use' % where, loc(n),
+                     'the `&mut BytesMut` obtained from Framed::read_buffer_mut is used at a place the enumerated paths of %s do not reach (inside a closure that is not applied there, or behind a construct without a model): what is done with the read buffer there is not decided' % where)
     verdicts = {}       # (use, ok) -> detail
     for label0, o, i in occ:
         label = 'on the paths of the function body' if label0 == 'body' else 'select! %s of the driver loop' % label0
